@@ -11,7 +11,12 @@ for f in sorted(glob.glob(os.path.join(os.path.dirname(__file__), 'p_c*.py'))):
     name = os.path.basename(f)[2:-3].upper()
     spec = importlib.util.spec_from_file_location('p_' + name, f)
     m = importlib.util.module_from_spec(spec)
-    spec.loader.exec_module(m)
+    try:
+        spec.loader.exec_module(m)
+    except Exception as e:      # a broken configuration file only affects its own property
+        import sys
+        print('checklib: %s does not load: %s' % (f, e), file=sys.stderr)
+        continue
     PROPS[name] = m.PROP
     MANIFESTS[name] = m.MANIFEST
     EXTRACT_DEPS += getattr(m, 'EXTRACT_DEPS', [])
